@@ -267,6 +267,10 @@ def finish(prop, tier, seed, results, t0, *, level="model_checking", bounds=None
         "path_coverage_proved_complete": sum(1 for r in results if r.get("complete")),
         "symbolic_runs": sum(r.get("runs", 0) for r in results),
         "tie_paths_examined": sum(r.get("tie_paths", 0) for r in results),
+        "cross_solver_checked": sum(len(r.get("solver_diff", [])) for r in results),
+        "cross_solver_confirmed_by_z3_4.8.12": sum(1 for r in results for d in r.get("solver_diff", []) if "z3_4.8.12" in d["confirmed_by"]),
+        "cross_solver_confirmed_by_cvc5": sum(1 for r in results for d in r.get("solver_diff", []) if "cvc5_1.0.3" in d["confirmed_by"]),
+        "cross_solver_disagreements": sum(1 for r in results for d in r.get("solver_diff", []) if not d["agree"]),
         "obligations": sum(r.get("obligations", 0) for r in results),
         "discharged": sum(r.get("discharged", 0) for r in results),
         "goal_pairs": sum(r.get("goals", 0) for r in results),
